@@ -227,6 +227,9 @@ def run_check(pid, tier, batch_seed=None, nproc=None, runs=None, time_budget=Non
                 break
             submit_more()
     results.sort(key=lambda r: r.index)
+    if os.environ.get('VERIF_DIGESTS'):
+        with open(os.environ['VERIF_DIGESTS'], 'w') as f:
+            json.dump([[r.index, r.digest, r.status, r.fingerprint] for r in results], f)
     # ---- classify violations ------------------------------------------------
     exit_code = 0
     known_hit = {}
